@@ -3,6 +3,7 @@ package rules
 import (
 	"fmt"
 	"go/types"
+	"sort"
 	"strings"
 
 	"golang.org/x/tools/go/ssa"
@@ -161,47 +162,95 @@ func (c *Ctx) RuleUpd() []*Result {
 	// UPD-VERSION: the running version handed to the updater is read when the command runs
 	version := &Result{Rule: "UPD-VERSION", MinInst: 1}
 	if cmd := c.Commands().ByName["self-update"]; cmd != nil {
-		for _, entry := range c.EntryRoots(cmd) {
-			allInstrs(entry, func(in ssa.Instruction) {
+		reach := c.Graph().Reach(c.EntryRoots(cmd))
+		var fns []*ssa.Function
+		for fn := range reach {
+			fns = append(fns, fn)
+		}
+		sort.Slice(fns, func(i, j int) bool { return load.FnName(fns[i]) < load.FnName(fns[j]) })
+		for _, fn := range fns {
+			if !c.P.IsRepoFn(fn) {
+				continue
+			}
+			allInstrs(fn, func(in ssa.Instruction) {
 				call, ok := in.(*ssa.Call)
 				if !ok {
 					return
 				}
 				sf := staticFn(&call.Call)
-				if sf == nil || load.ShortPkg(load.FnPkgPath(sf)) != "internal/updater" || len(call.Call.Args) == 0 {
+				if sf == nil || load.ShortPkg(load.FnPkgPath(sf)) != "internal/updater" || len(call.Call.Args) == 0 || load.ShortPkg(load.FnPkgPath(fn)) == "internal/updater" {
 					return
 				}
 				if call.Call.Args[0].Type().Underlying().String() != "string" {
 					return
 				}
 				version.Instances++
-				key := load.FnName(entry) + ":running version handed to " + load.FnName(sf)
-				// must derive (through phis) from a load of cobra.Command.Version made in this function
-				okV := false
-				var walk func(v ssa.Value, d int)
-				walk = func(v ssa.Value, d int) {
-					if d > 4 {
+				key := load.FnName(fn) + ":running version handed to " + load.FnName(sf)
+				loads, bad := 0, ""
+				var walk func(v ssa.Value, in *ssa.Function, d int)
+				walk = func(v ssa.Value, in *ssa.Function, d int) {
+					if d > 8 || bad != "" {
 						return
 					}
-					switch x := v.(type) {
+					switch x := stripConv(v).(type) {
+					case *ssa.Const:
 					case *ssa.Phi:
 						for _, e := range x.Edges {
-							walk(e, d+1)
+							walk(e, in, d+1)
 						}
 					case *ssa.UnOp:
 						if fa, ok := x.X.(*ssa.FieldAddr); ok && isNamed(fa.X.Type(), cobraPkg, "Command") {
-							st := derefType(fa.X.Type()).Underlying().(*types.Struct)
-							if st.Field(fa.Field).Name() == "Version" {
-								okV = true
+							if st, ok := derefType(fa.X.Type()).Underlying().(*types.Struct); ok && st.Field(fa.Field).Name() == "Version" {
+								if _, inReach := reach[in]; inReach {
+									loads++
+									return
+								}
 							}
 						}
+						if _, isFree := x.X.(*ssa.FreeVar); isFree {
+							bad = "a value captured when the command object was built"
+							return
+						}
+						bad = fmt.Sprintf("a value of unknown origin (%T)", x.X)
+					case *ssa.Parameter:
+						pi := paramIndex(in, x)
+						n := 0
+						for _, e := range c.Graph().In[in] {
+							cc := callCommon(e.Site)
+							if cc == nil || staticFn(cc) != in || pi < 0 || pi >= len(cc.Args) {
+								continue
+							}
+							n++
+							walk(cc.Args[pi], e.Caller, d+1)
+						}
+						if n == 0 {
+							bad = "a parameter without a static caller"
+						}
+					case *ssa.Call:
+						hf := staticFn(&x.Call)
+						if hf == nil || !c.P.IsRepoFn(hf) || len(hf.Blocks) == 0 {
+							bad = "the result of " + calleeLabel(&x.Call)
+							return
+						}
+						allInstrs(hf, func(in2 ssa.Instruction) {
+							if r, ok := in2.(*ssa.Return); ok && len(r.Results) > 0 {
+								walk(r.Results[0], hf, d+1)
+							}
+						})
+					case *ssa.FreeVar:
+						bad = "a value captured when the command object was built"
+					default:
+						bad = fmt.Sprintf("a value of unknown origin (%T)", v)
 					}
 				}
-				walk(call.Call.Args[0], 0)
-				if okV {
+				walk(call.Call.Args[0], fn, 0)
+				if bad == "" && loads > 0 {
 					version.ok(key, c.P.InstrPos(call), "the version field of the root command, read when the command runs")
 				} else {
-					version.bad(key, c.P.InstrPos(call), "the running version is not read from the root command when self-update runs (it is computed earlier, e.g. when the command is constructed at package initialisation, before main sets the version): every build reports the placeholder version and reinstalls a release that is not newer")
+					if bad == "" {
+						bad = "a constant"
+					}
+					version.bad(key, c.P.InstrPos(call), "the running version is "+bad+", not the root command's version read when self-update runs (it is computed earlier, e.g. when the command is constructed at package initialisation, before main sets the version): every build reports the placeholder version and reinstalls a release that is not newer")
 				}
 			})
 		}
